@@ -299,6 +299,36 @@ def check(run):
             copy_protocol(run, prog, cls)
 
 
+def _names_truth(run, prog):
+    """NAMES: feature names are str, int or float in any mixture -- 0, 0.0 and '' are legal names.  A constructor chain
+    that asks for the truth value of the names (`all(names)`, `any(names)`, `if not name`, `filter(None, names)`) treats
+    them as missing."""
+    n = 0
+    for cls in explainer_classes(prog):
+        try:
+            s = prog.summarise(cls, "__init__")
+        except ir.Unsupported:
+            continue
+        _, fn = prog.find_method(cls, "__init__")
+        names = {("param", a.arg) for a in fn.args.args + fn.args.kwonlyargs if "feature" in a.arg and "name" in a.arg}
+        if not names:
+            continue
+        n += 1
+        bad = None
+        for ev, ctx in walk(s.events, structural=True):
+            conds = list(ctx.guards) + ([ev.cond] if isinstance(ev, ir.If) else [])
+            for c in conds:
+                for t in ir.subterms(c):
+                    if t[0] == "fn" and t[1] in ("all", "any") and t[2] and (t[2][0] in names or any(
+                            x in names for x in ir.subterms(t[2][0]) if t[2][0][0] in ("new", "fn") and t[2][0][:2] != ("fn", "map"))):
+                        bad = (t, ev)
+        run.check(bad is None, "NAMES", f"{cls.name}.names-truth", f"{s.path}:{getattr(bad[1], 'line', s.fn.lineno) if bad else s.fn.lineno}",
+                  f"{cls.name}.__init__", f"truth of the names: {ir.show_nl(bad[0])[:60] if bad else 'not asked'}",
+                  f"the constructor asks for the truth value of the feature names ({ir.show_nl(bad[0])[:80] if bad else ''}): the "
+                  f"legal names 0, 0.0 and '' count as false, so explainers for such names are rejected / mis-handled",
+                  "the names are only compared / counted, never truth-tested")
+
+
 def _check_own(run):
     prog = run.prog
     _null(run, prog)
@@ -307,6 +337,7 @@ def _check_own(run):
     run.need(len(classes) >= 4, f"only {len(classes)} explainers discovered")
     # any callable loss is accepted by the constructors (they all go through validate_loss_function)
     from .c06 import depends_on
+    _names_truth(run, prog)
     depends_on(run, "C13", {"AGREE"}, only=lambda rule, inst: inst.startswith("dispatch"))
     depends_on(run, "C06", {"MERGE", "VALUE", "COUNT"},
                only=lambda rule, inst: rule != "MERGE" or inst.endswith("keys-as-keywords"))
